@@ -13,8 +13,8 @@
     [isolated Gen.FactsC12.table] from the theorem below (cases file of the
     suite `service`, re-checked by coqc on every run). *)
 From Coq Require Import String Ascii List Bool Arith ZArith.
-From Raven Require Import Base.GoStr Model.Slicers Model.SearchOr Model.SearchCost Model.UserCreate Model.Service Spec.NoCrash
-  Proof.Slicers Proof.SearchOr Proof.SearchCost Proof.UserCreate Proof.Service Gen.FactsC12.
+From Raven Require Import Base.GoStr Model.Slicers Model.SearchOr Model.SearchCost Model.UserCreate Model.Service Model.StoreLock Spec.NoCrash
+  Proof.Slicers Proof.SearchOr Proof.SearchCost Proof.UserCreate Proof.Service Proof.StoreLock Gen.FactsC12.
 Import ListNotations.
 
 (** ================= function layer ================= *)
@@ -165,6 +165,31 @@ Theorem c12_unrecovered_panic_kills :
      = map (fun ev => mk_obs [] true (length (ev_cmds ev))) later.
 Proof. exact unrecovered_panic_kills. Qed.
 Print Assumptions c12_unrecovered_panic_kills.
+
+(** ---- mutexes (DBManager.cacheMutex and the servers' mu): a function that takes a mutex its caller holds
+    never returns, and nobody else gets the lock either ---- *)
+
+(** for ANY facts without re-acquisition: every region that holds a mutex runs to its Unlock, whichever of
+    its callees run (so GetUserDB / GetRoleMailboxDB / Close return on every path, error paths included) *)
+Theorem c12_held_regions_complete_of_facts : forall (ls : list locker) (hs : list hold),
+  locks_ok ls hs = true ->
+  forall h, In h hs -> forall trace, trace_of h trace -> run_region ls (h_mutex h) trace = Some (length trace).
+Proof. exact regions_complete. Qed.
+Print Assumptions c12_held_regions_complete_of_facts.
+
+(** a callee that takes the held mutex blocks the region for ever, whatever ran before it *)
+Theorem c12_reacquisition_blocks : forall (ls : list locker) (h : hold) (c p : str) (before after : list str),
+  In (c, p) (reacquired ls h) -> run_region ls (h_mutex h) (before ++ c :: after) = None.
+Proof. exact reacquisition_blocks. Qed.
+Print Assumptions c12_reacquisition_blocks.
+
+(** the facts regenerated from the CURRENT tree: all held regions complete, or the offending call path *)
+Theorem c12_store_lock_status_now :
+  if locks_ok FactsC12.lockers FactsC12.holds
+  then forall h, In h FactsC12.holds -> forall trace, trace_of h trace -> run_region FactsC12.lockers (h_mutex h) trace = Some (length trace)
+  else exists h c p, In h FactsC12.holds /\ In (c, p) (reacquired FactsC12.lockers h).
+Proof. exact (locks_status FactsC12.lockers FactsC12.holds). Qed.
+Print Assumptions c12_store_lock_status_now.
 
 (** ---- non-vacuity / examples ---- *)
 Example c12_facts_ok_satisfiable :
